@@ -43,6 +43,11 @@ def fe_pool(r, n_rand):
             # all limbs near max
             v = sum((((1 << 51) - 1 - r.below(4)) << (51 * i)) for i in range(5))
             out.append(("limbmax", v % (1 << 256)))
+    for i in range(max(6, n_rand // 3)):
+        l5 = ripple(r, [51] * 5)
+        out.append(("ripple51", sum(x << (51 * i) for i, x in enumerate(l5))))
+        l10 = ripple(r, [26 if i % 2 == 0 else 25 for i in range(10)])
+        out.append(("ripple26", sum(x << ((51 * i + 1) // 2) for i, x in enumerate(l10))))
     return out
 
 
@@ -154,7 +159,32 @@ def limbs51(r, bound_bits, kind):
     if kind == "p":
         # a representation of a value near p with all limbs 2^51-1 (p + 18)
         return [(1 << 51) - 19 + r.below(40), (1 << 51) - 1, (1 << 51) - 1, (1 << 51) - 1, (1 << 51) - 1]
+    if kind == "ripple":
+        return ripple(r, [51] * 5, top)
     raise ValueError(kind)
+
+
+def ripple(r, widths, top=None):
+    """carry-chain corner: the +19 carry out of limb 0 ripples through j limbs of all-ones, then meets a limb that is
+    not all-ones; the limbs above are independently all-ones or random (solved for, not sampled)"""
+    n = len(widths)
+    j = r.below(n + 1)
+    out = []
+    for i, w in enumerate(widths):
+        m = (1 << w) - 1
+        if i == 0:
+            v = m - 18 + r.below(19) if j > 0 else r.below(m - 18)
+        elif i < j:
+            v = m
+        elif i == j:
+            v = r.choice([0, 1, m - 1, m - 2, r.below(m)])
+        else:
+            v = m if r.below(2) else r.choice([r.below(m + 1), m - 1, 0])
+        # optionally an unreduced representation: add a multiple of 2^w that a weak reduce would carry
+        if top is not None and r.below(6) == 0 and v + (1 << w) <= top:
+            v += (1 << w)
+        out.append(v)
+    return out
 
 
 def limbs26(r, excess, kind):
@@ -170,6 +200,8 @@ def limbs26(r, excess, kind):
         return [min(t, r.choice([0, 1, (1 << (26 if i % 2 == 0 else 25)) - 1, 1 << (26 if i % 2 == 0 else 25), t, t - 1, r.below(t + 1)])) for i, t in enumerate(tops)]
     if kind == "p":
         return [(1 << 26) - 19 + r.below(40)] + [((1 << (26 if i % 2 == 0 else 25)) - 1) for i in range(1, 10)]
+    if kind == "ripple":
+        return [min(v, t) for v, t in zip(ripple(r, [26 if i % 2 == 0 else 25 for i in range(10)], None), tops)] if excess < 2 else ripple(r, [26 if i % 2 == 0 else 25 for i in range(10)], min(tops))
     raise ValueError(kind)
 
 
